@@ -1020,6 +1020,320 @@ fn judge(run: &Run, w: &'static World, c: &Case) -> CaseResult {
     }
 }
 
+
+// ------------------------------------------------------------------------------------------------------
+// history stream: a genuine token of signature A replayed on signature B, read in generated orders on one thread
+// ------------------------------------------------------------------------------------------------------
+
+#[derive(Clone, Debug, Serialize, Deserialize, PartialEq, Eq, Hash)]
+struct HistCase {
+    /// read order on one thread: 0 = asset A (genuine token T_A), 1 = asset B (carries a replay of T_A)
+    order: Vec<u8>,
+    /// per read: use the async reader (block_on of a current-thread runtime, same thread)
+    async_read: Vec<bool>,
+    /// now (A: certificate valid now, openssl ts token) | back (A: expired certificate, genTime inside its window)
+    mode: String,
+    /// B's signing certificate: valid | expired (mode back: always expired, window contains T_A's genTime)
+    b_cert: String,
+    /// B signed with the same key / hierarchy as A (fresh certificate) or with the other hierarchy
+    same_cred: bool,
+    claim_v: u8,
+    ts_trust: bool,
+    tsa_key: String,
+    var: u64,
+}
+
+fn make_ee(w: &World, ch: &SignChain, tag: u64, nb: i64, na: i64) -> Result<Vec<u8>, String> {
+    let mut s = CertSpec::ee(&format!("C36 signer {:x}", tag & 0xffff));
+    s.not_before_off = nb;
+    s.not_after_off = na;
+    s.serial_hex = format!("51{:06x}", tag & 0xff_ffff);
+    let iss = Issuer {
+        name_der: pki::name_der(&ch.inter_spec.cn, ch.inter_spec.org.as_deref()),
+        key: &ch.inter_key,
+        key_kind: KeyKind::P256,
+        ski: pki::key_id(&ch.inter_key)?,
+    };
+    pki::make_cert(&s, &ch.key, ch.kind, Some(&iss), w.now)
+}
+
+enum Tok {
+    None,
+    Fresh,
+    Replay(Vec<u8>),
+}
+
+/// Sign with the judged certificate `ee`; the hook answers nothing / a fresh token per `c` / a stored response.
+fn sign_hist(w: &'static World, c: &Case, title: &str, ch: &SignChain, ee: &[u8], tok: Tok) -> Result<(Vec<u8>, Option<Produced>), String> {
+    let ee_now = make_ee(w, ch, c.var ^ 0x77, -30 * DAY, 300 * DAY)?;
+    let slot: Arc<Mutex<Option<Result<Produced, String>>>> = Arc::new(Mutex::new(None));
+    let mut signer = PkiSigner::new(ch.key.clone(), ch.kind, vec![ee.to_vec(), ch.inter.clone()])
+        .with_first_answer(vec![ee_now, ch.inter.clone()], 1);
+    match tok {
+        Tok::None => {}
+        Tok::Fresh => {
+            let (slot2, case) = (slot.clone(), c.clone());
+            signer = signer.with_timestamper(Box::new(move |msg: &[u8]| {
+                let p = produce(w, &case, msg);
+                let out = p.as_ref().map(|p| p.resp.clone()).map_err(|e| e.clone());
+                *slot2.lock().unwrap() = Some(p);
+                Some(out)
+            }));
+        }
+        Tok::Replay(resp) => {
+            signer = signer.with_timestamper(Box::new(move |_msg: &[u8]| Some(Ok(resp.clone()))));
+        }
+    }
+    let (mut def, intent) = definition(c);
+    def["title"] = json!(title);
+    let res = vh::catch(|| sdk::sign_with(sdk::context_with(&settings(w, c)), &def, intent, &signer, "image/jpeg", &w.src))
+        .map_err(|p| format!("sign panicked: {p}"))?;
+    let produced = match slot.lock().unwrap().take() {
+        Some(Ok(p)) => Some(p),
+        Some(Err(e)) => return Err(format!("harness TSA failed: {e}")),
+        None => None,
+    };
+    let bytes = res.map_err(|e| format!("sign failed: {e:?}"))?;
+    if signer.calls() != 2 {
+        return Err(format!("Signer::certs() called {} times (recipe assumes 2)", signer.calls()));
+    }
+    Ok((bytes, produced))
+}
+
+fn obs_of(read: c2pa::Result<c2pa::Reader>) -> Obs {
+    let mut o = Obs::default();
+    match read {
+        Err(e) => {
+            o.state = "ReadError".into();
+            o.read_err = Some(format!("{e:?}").chars().take(80).collect());
+        }
+        Ok(r) => {
+            o.state = sdk::state_name(r.validation_state()).to_string();
+            if let Some(a) = r.validation_results().and_then(|v| v.active_manifest()) {
+                o.succ = a.success().iter().map(|s| s.code().to_string()).collect();
+                o.info = a.informational().iter().map(|s| s.code().to_string()).collect();
+                o.fail = a.failure().iter().map(|s| s.code().to_string()).collect();
+                o.succ.sort();
+                o.info.sort();
+                o.fail.sort();
+            }
+            o.time_text = r.active_manifest().and_then(|m| m.time());
+            o.time = o.time_text.as_deref().and_then(parse_rfc3339);
+        }
+    }
+    o
+}
+
+/// Async reader driven to completion on the calling thread.
+fn observe_async(w: &World, c: &Case, bytes: &[u8]) -> Result<Obs, String> {
+    let rt = tokio::runtime::Builder::new_current_thread().build().map_err(|e| e.to_string())?;
+    let read = vh::catch(|| {
+        rt.block_on(async {
+            c2pa::Reader::from_context(sdk::context_with(&settings(w, c)))
+                .with_stream_async("image/jpeg", std::io::Cursor::new(bytes.to_vec()))
+                .await
+        })
+    })?;
+    Ok(obs_of(read))
+}
+
+fn judge_history(run: &Run, w: &'static World, h: &HistCase) -> CaseResult {
+    let trace = std::env::var("VERIF_C36_TRACE").is_ok();
+    let mut r = SplitMix64::new(h.var ^ 0x4157);
+    let gen_err = |e: String| {
+        run.count("generator_error");
+        run.inconclusive(format!("generator failed for {h:?}: {e}"));
+        Ok(())
+    };
+    if h.order.is_empty() || h.order.len() != h.async_read.len() {
+        return gen_err("malformed history case".into());
+    }
+    let back = h.mode == "back";
+    // the Case that drives settings / definition / token production of both signings
+    let c = Case {
+        token: "good".into(),
+        date: if back { "back_in".into() } else { "now".into() },
+        route: if back { "native".into() } else { "ts".into() },
+        cert: if back { "expired".into() } else { "valid".into() },
+        claim_v: h.claim_v,
+        ts_trust: h.ts_trust,
+        tsa_key: h.tsa_key.clone(),
+        var: h.var,
+    };
+    let ia = (h.var % w.chains.len() as u64) as usize;
+    let ib = if h.same_cred { ia } else { (ia + 1) % w.chains.len() };
+    let (cha, chb) = (&w.chains[ia], &w.chains[ib]);
+    let (a_nb, a_na) = cert_window(&c.cert, &mut r);
+    let b_class = if back { "expired" } else { h.b_cert.as_str() };
+    let (b_nb, b_na) = cert_window(b_class, &mut r);
+    let (ee_a, ee_b) = match (make_ee(w, cha, h.var, a_nb, a_na), make_ee(w, chb, h.var ^ 0xB0B, b_nb, b_na)) {
+        (Ok(a), Ok(b)) => (a, b),
+        (Err(e), _) | (_, Err(e)) => return gen_err(e),
+    };
+    // A with its genuine token, B's control without token, B with the replay of A's response
+    let (bytes_a, pa) = match sign_hist(w, &c, "c36 asset A", cha, &ee_a, Tok::Fresh) {
+        Ok((b, Some(p))) => (b, p),
+        Ok((_, None)) => return gen_err("send_timestamp_request was never called for A".into()),
+        Err(e) => return gen_err(format!("A: {e}")),
+    };
+    let bytes_b0 = match sign_hist(w, &c, "c36 asset B", chb, &ee_b, Tok::None) {
+        Ok((b, _)) => b,
+        Err(e) => return gen_err(format!("B control: {e}")),
+    };
+    let bytes_b = match sign_hist(w, &c, "c36 asset B", chb, &ee_b, Tok::Replay(pa.resp.clone())) {
+        Ok((b, _)) => b,
+        Err(e) => {
+            // a sign-time rejection of the foreign token is acceptable
+            run.count("history:sign_rejected");
+            if e.starts_with("sign failed") {
+                run.nontrivial(h);
+                return Ok(());
+            }
+            return gen_err(format!("B: {e}"));
+        }
+    };
+    let panic_fail = |p: String| Fail::new(format!("C36:panic-{}", vh::core::panic_site(&p)), format!("read panicked in history {h:?}: {p}\ntoken={}", b64(&pa.resp)));
+    // control of B: read before the sequence (no token inside, cannot prime anything)
+    let o0 = observe(w, &c, &bytes_b0).map_err(panic_fail)?;
+    let b_in_window = pa.gen >= w.now + b_nb && pa.gen <= w.now + b_na;
+    run.count(&format!("history:mode:{}", h.mode));
+    run.count(&format!("history:order:{}", h.order.iter().map(|x| if *x == 0 { 'A' } else { 'B' }).collect::<String>()));
+    run.count(&format!("history:b_cert:{b_class}{}", if b_in_window { ":token-time-inside-window" } else { "" }));
+    run.count(if h.same_cred { "history:same-credential" } else { "history:other-credential" });
+    run.nontrivial(h);
+
+    let mut seen_a: Option<Obs> = None;
+    let mut trail = vec![];
+    for (i, (which, asy)) in h.order.iter().zip(&h.async_read).enumerate() {
+        let bytes = if *which == 0 { &bytes_a } else { &bytes_b };
+        let mut o = if *asy { observe_async(w, &c, bytes) } else { observe(w, &c, bytes) }.map_err(panic_fail)?;
+        run.count(if *asy { "history:read:async" } else { "history:read:sync" });
+        // self-test: emulate a memo keyed on the token bytes only (a validated token is replayed on the next signature)
+        if selftest() == "memo" && *which == 1 {
+            if let Some(a) = &seen_a {
+                o.succ.retain(|x| !x.starts_with("timeStamp."));
+                o.succ.extend(a.succ.iter().filter(|x| x.starts_with("timeStamp.")).cloned());
+                o.info.retain(|x| !x.starts_with("timeStamp."));
+                o.time = a.time;
+                o.time_text = a.time_text.clone();
+                if b_in_window {
+                    o.state = "Trusted".into();
+                    o.fail.clear();
+                }
+            }
+        }
+        let name = if *which == 0 { "A" } else { "B" };
+        trail.push(format!("{name}{}:{}[{}]t={:?}", if *asy { "(async)" } else { "" }, o.state, o.ts_codes().join(","), o.time));
+        let art = |o: &Obs| {
+            format!(
+                "history={h:?}\nread #{i} ({name}); reads so far: {}\nobserved={}\ncontrol_B={}\nT_A genTime={} now={} B_cert_window=[{},{}]\ntoken_b64={}\nmessage_A_b64={}\ncert_A_b64={}\ncert_B_b64={}",
+                trail.join(" -> "),
+                serde_json::to_string(o).unwrap_or_default(),
+                serde_json::to_string(&o0).unwrap_or_default(),
+                pa.gen,
+                w.now,
+                w.now + b_nb,
+                w.now + b_na,
+                b64(&pa.resp),
+                b64(&pa.message),
+                b64(&ee_a),
+                b64(&ee_b)
+            )
+        };
+        let bad_code = BAD_FAMILY.iter().any(|b| o.has(&o.info, b) || o.has(&o.fail, b));
+        if *which == 0 {
+            // the good class
+            if !o.has(&o.succ, "timeStamp.validated") || !o.has(&o.succ, "timeStamp.trusted") || bad_code {
+                return Err(Fail::new("C36:history-genuine-token-not-validated", format!("asset A with its own token: codes {:?}\n{}", o.ts_codes(), art(&o))));
+            }
+            if o.time != Some(pa.gen) {
+                let sig = if pa.attr.is_some() && o.time == pa.attr && pa.attr != Some(pa.gen) {
+                    "C36:signing-time-from-cms-attribute-not-gentime"
+                } else {
+                    "C36:history-genuine-token-time-not-gentime"
+                };
+                return Err(Fail::new(sig, format!("asset A: signature_info.time {:?} but genTime {}\n{}", o.time_text, pa.gen, art(&o))));
+            }
+            if !o.accepted() || o.has(&o.fail, "signingCredential.expired") {
+                return Err(Fail::new("C36:history-genuine-token-cert-rejected", format!("asset A (certificate valid at genTime): state {} failures {:?}\n{}", o.state, o.fail, art(&o))));
+            }
+            seen_a = Some(o);
+        } else {
+            // the wrong-imprint class, whatever was read before on this thread
+            let after = if seen_a.is_some() { "after-A" } else { "before-A" };
+            if !bad_code || o.has(&o.succ, "timeStamp.validated") || o.has(&o.succ, "timeStamp.trusted") {
+                return Err(Fail::new(
+                    format!("C36:history-foreign-token-accepted-{after}"),
+                    format!("asset B carries the token of signature A; read {after} on the same thread it is reported {:?} (no mismatch-family code or a success code)\n{}", o.ts_codes(), art(&o)),
+                ));
+            }
+            if let Some(t) = o.time {
+                if t == pa.gen || Some(t) == pa.attr {
+                    return Err(Fail::new(
+                        format!("C36:history-foreign-token-time-used-{after}"),
+                        format!("asset B: signature_info.time {:?} is taken from the token of signature A\n{}", o.time_text, art(&o)),
+                    ));
+                }
+            }
+            if o.cert_verdict() != o0.cert_verdict() {
+                let sig = if o.accepted() && !o0.accepted() {
+                    format!("C36:history-foreign-token-rescues-{b_class}-cert-{after}")
+                } else {
+                    format!("C36:history-foreign-token-changes-verdict-{after}")
+                };
+                return Err(Fail::new(sig, format!("asset B: verdict {:?} differs from its no-token control {:?}\n{}", o.cert_verdict(), o0.cert_verdict(), art(&o))));
+            }
+        }
+    }
+    if trace {
+        eprintln!("history {} {} b={b_class} same={} v{}: {}", h.mode, if b_in_window { "inwin" } else { "outwin" }, h.same_cred, h.claim_v, trail.join(" -> "));
+    }
+    Ok(())
+}
+
+fn history_cases(seed: u64, quick: bool) -> Vec<HistCase> {
+    let mut s = SplitMix64::new(seed ^ 0x4157_0123);
+    let fixed: [&[u8]; 7] = [&[0, 1], &[0, 0, 1], &[1, 0, 1], &[0, 1, 0, 1], &[0, 1, 1], &[1, 0], &[0, 0, 1, 1]];
+    let mut orders: Vec<Vec<u8>> = fixed.iter().map(|o| o.to_vec()).collect();
+    for _ in 0..(if quick { 3 } else { 40 }) {
+        let n = 2 + s.usize(3);
+        let mut o: Vec<u8> = (0..n).map(|_| s.below(2) as u8).collect();
+        if !o.contains(&1) {
+            o[n - 1] = 1;
+        }
+        if !o.contains(&0) {
+            o[0] = 0;
+        }
+        orders.push(o);
+    }
+    let mut v = vec![];
+    let reps = if quick { 1 } else { 2 };
+    for rep in 0..reps {
+        for (k, order) in orders.iter().enumerate() {
+            for (m, mode) in ["back", "now"].into_iter().enumerate() {
+                let n = k + m + rep;
+                // quick: one configuration per (order, mode), rotating; thorough: all of same/other credential x v1/v2
+                let combos: Vec<(bool, u8)> = if quick { vec![(n % 2 == 0, if n % 3 == 0 { 1 } else { 2 })] } else { vec![(true, 2), (false, 2), (true, 1), (false, 1)] };
+                for (same_cred, claim_v) in combos {
+                    let async_read: Vec<bool> = (0..order.len()).map(|i| (n + i) % 3 == 2 || (!quick && s.chance(1, 3))).collect();
+                    v.push(HistCase {
+                        order: order.clone(),
+                        async_read,
+                        mode: mode.into(),
+                        b_cert: if mode == "back" || s.bool() { "expired".into() } else { "valid".into() },
+                        same_cred,
+                        claim_v,
+                        ts_trust: !s.chance(1, 4),
+                        tsa_key: (*s.pick(&["p256", "p256", "p384", "rsa"])).into(),
+                        var: s.next_u64(),
+                    });
+                }
+            }
+        }
+    }
+    v
+}
+
 // ------------------------------------------------------------------------------------------------------
 // enumeration
 // ------------------------------------------------------------------------------------------------------
@@ -1124,9 +1438,10 @@ fn core_cases(seed: u64) -> Vec<Case> {
 fn main() {
     vh::quiet_panics();
     let run = Run::from_args("C36", "exploration");
-    run.set_rule("token class (good / other message / flipped CMS signature byte / flipped TSTInfo byte: imprint, genTime year, serial / TSA certificate whose EKU is emailProtection, OCSPSigning, documentSigning or absent / TSA under an unconfigured root / genTime outside the TSA certificate) x genTime (now, inside the expired window, inside the not-yet-valid window, before every window) x signing certificate (valid, expired, not yet valid now) x claim v1 (sigTst) / v2 (sigTst2) x verify_timestamp_trust x TSA key (P-256, P-384, RSA-2048) x signing route (openssl ts, openssl cms re-sign, CMS assembled in the harness with signingTime attribute = genTime / absent / moved into the certificate window while genTime = now) x imprint digest (SHA-256/384/512); non-trivial = bad token or signing certificate not valid now");
+    run.set_rule("token class (good / other message / flipped CMS signature byte / flipped TSTInfo byte: imprint, genTime year, serial / TSA certificate whose EKU is emailProtection, OCSPSigning, documentSigning or absent / TSA under an unconfigured root / genTime outside the TSA certificate) x genTime (now, inside the expired window, inside the not-yet-valid window, before every window) x signing certificate (valid, expired, not yet valid now) x claim v1 (sigTst) / v2 (sigTst2) x verify_timestamp_trust x TSA key (P-256, P-384, RSA-2048) x signing route (openssl ts, openssl cms re-sign, CMS assembled in the harness with signingTime attribute = genTime / absent / moved into the certificate window while genTime = now) x imprint digest (SHA-256/384/512); non-trivial = bad token or signing certificate not valid now. History stream: asset A signed with a genuine token T_A, asset B (same or other credential, valid or expired certificate whose window contains T_A's genTime) whose TSA answer is a replay of A's response, read on one thread in generated orders of 2-4 reads over {A,B} with the sync or async reader; every history case is non-trivial");
     run.assume("certificate windows, genTime classes and 'now' are separated by at least 50 days, so the wall clock of the machine only has to be right to within weeks");
     run.assume("the openssl 3.0 CLI (/usr/bin/openssl ts / cms) produces standard RFC 3161 / CAdES tokens; Builder::sign asks Signer::certs() exactly twice (asserted) so that a certificate valid now can pass the pre-sign check while the judged certificate (same key) is embedded");
+    run.assume("history stream: the reads of one case run sequentially on one worker thread (sync reader, and the async reader driven by a current-thread tokio runtime on that same thread); state kept by the SDK per thread or per process between reads is therefore in scope, state keyed on other threads is not");
     run.assume("TSA without timeStamping EKU / TSA under an unconfigured root are 'bad' only when verify_timestamp_trust is on and the claim is v2 (the SDK documents that v1 claims and the switched-off setting skip TSA trust); their signature_info.time is recorded, not judged (the property's literal condition - imprint and CMS signature - holds for them)");
 
     let _ = std::fs::remove_dir_all(WORK);
@@ -1160,7 +1475,14 @@ fn main() {
     }
     let threads = std::thread::available_parallelism().map(|n| n.get()).unwrap_or(4).min(run.scale(8, 16));
     run.drive_enum_par("timestamps", cases, threads, |c| judge(&run, world, c));
+    // every history case runs all its reads on the one worker thread that picked it
+    run.drive_enum_par("history", history_cases(run.seed, run.quick()), threads, |h| judge_history(&run, world, h));
     if run.replay.is_none() {
+        for k in ["history:mode:back", "history:mode:now", "history:read:sync", "history:read:async", "history:order:AB", "history:order:BAB"] {
+            if run.hist_get(k) == 0 {
+                run.inconclusive(format!("history class {k} was never exercised"));
+            }
+        }
         for t in TOKENS {
             if run.hist_get(&format!("token:{t}")) == 0 {
                 run.inconclusive(format!("token class {t} was never exercised"));
